@@ -200,6 +200,7 @@ func c11(r *hx.Run) {
 		}
 	}
 	r.Set("sizes", len(sizes))
+	c11Reload(r, rnd)
 	c11EndToEnd(r, rnd)
 }
 
@@ -308,3 +309,42 @@ func c11EndToEnd(r *hx.Run, rnd *rand.Rand) {
 }
 
 func init() { register("C11", "exploration", c11) }
+
+// c11Reload: the same cache name is configured again with another size (a live reload). The size of a
+// surviving cache is documented as restart-only, so the bound is the larger of the two sizes: whichever
+// of them is in effect, the residents must not exceed it.
+func c11Reload(r *hx.Run, rnd *rand.Rand) {
+	pairs := [][2]int{{100, 5}, {2000, 100}, {2000, 7}, {64, 1}, {9, 3}, {5, 100}, {1, 64}, {1024, 1023}, {300, 8}}
+	for pi, p := range pairs {
+		name := fmt.Sprintf("c11reload%d_%d", r.Seed, pi)
+		cache.ResetDispatchers([]config.CacheConfig{{Name: name, Size: p[0], HitForPass: "5m"}})
+		cache.ResetDispatchers([]config.CacheConfig{{Name: name, Size: p[1], HitForPass: "5m"}})
+		d := cache.GetDispatcher(name)
+		if d == nil {
+			r.Violate("cache_missing_after_reload", map[string]string{"sizes": fmt.Sprint(p)}, "the cache is gone after it was configured again with another size", nil, p)
+			continue
+		}
+		bound := p[0]
+		if p[1] > bound {
+			bound = p[1]
+		}
+		n := 20*bound + 2000
+		max := 0
+		for i := 0; i < n; i++ {
+			d.GetHTTPCache([]byte(fmt.Sprintf("GET h /reload/%d", rnd.Intn(6*bound+50))))
+			if i%16 == 0 || i == n-1 {
+				if t := d.VerifStats().Total; t > max {
+					max = t
+				}
+			}
+		}
+		r.Eval(1)
+		r.Add("reload_size_pairs", 1)
+		if max > bound {
+			r.Violate("resident_exceeds_size", map[string]string{"size_class": "after_reload", "size": fmt.Sprint(p)}, fmt.Sprintf("cache configured with size %d and then %d holds %d entries", p[0], p[1], max), nil, map[string]interface{}{"sizes": p})
+			continue
+		}
+		r.Distinct(fmt.Sprintf("reload %v", p))
+	}
+	cache.ResetDispatchers(nil)
+}
